@@ -520,3 +520,82 @@ Proof. split; [vm_compute; reflexivity|]. split; [vm_compute; discriminate|]. ap
   - repeat constructor; simpl; intuition discriminate.
   - intros e [<-|[<-|[<-|[]]]]; split; repeat constructor; simpl; intuition discriminate.
 Qed.
+
+(* ------------------------------------------------------------------ the reading rules for attributes, stated *)
+
+(** classification: "species" (kind) or flag 0 makes a species — even when the other attribute says reaction; a reaction
+    needs kind "reaction" or flag 1 and must not be a species; a node with neither attribute (or other values) is neither *)
+Theorem classification_spec n :
+  (is_species n = true <-> rn_kind n = Some 0 \/ rn_bflag n = Some 0%Z) /\
+  (is_reaction n = true <-> is_species n = false /\ (rn_kind n = Some 1 \/ rn_bflag n = Some 1%Z)) /\
+  (is_species n = true -> is_reaction n = false).
+Proof.
+  unfold is_reaction, is_species, kind_is, bflag_is.
+  destruct (rn_kind n) as [[|[|k]]|], (rn_bflag n) as [[|[|p|]|p]|]; simpl;
+    repeat split; intros; try discriminate; try tauto; try (left; reflexivity); try (right; reflexivity);
+    repeat match goal with H : _ \/ _ |- _ => destruct H | H : _ /\ _ |- _ => destruct H end; try discriminate; try congruence.
+Qed.
+
+Definition with_default_stoich (a : rarc) : rarc := RArc (ra_u a) (ra_v a) (ra_role a) (Some (coeff a)).
+Definition counts_for (G : rgraph) (r : N) (a : rarc) : bool :=
+  match ra_role a, index_get (species_index G) (if N.eqb (ra_u a) r then ra_v a else ra_u a) with
+  | Some _, Some _ => true
+  | _, _ => false
+  end.
+
+Lemma fold_acc_ext si r (f : rarc -> rarc) l : (forall a st, acc_arc si r st (f a) = acc_arc si r st a) ->
+  forall st, fold_left (acc_arc si r) (map f l) st = fold_left (acc_arc si r) l st.
+Proof. intros H. induction l as [|a l IH]; intros st; simpl; [reflexivity|]. rewrite H. apply IH. Qed.
+Lemma fold_acc_filter si r (p : rarc -> bool) l : (forall a st, p a = false -> acc_arc si r st a = st) ->
+  forall st, fold_left (acc_arc si r) (filter p l) st = fold_left (acc_arc si r) l st.
+Proof.
+  intros H. induction l as [|a l IH]; intros st; simpl; [reflexivity|]. destruct (p a) eqn:E; simpl; [apply IH|].
+  rewrite (H a st E). apply IH.
+Qed.
+Lemma filter_map_comm {A} (p : A -> bool) (f : A -> A) l : (forall a, p (f a) = p a) -> filter p (map f l) = map f (filter p l).
+Proof. intros H. induction l as [|a l IH]; simpl; [reflexivity|]. rewrite H. destruct (p a); simpl; rewrite IH; reflexivity. Qed.
+Lemma filter_filter_comm {A} (p q : A -> bool) l : filter p (filter q l) = filter q (filter p l).
+Proof. induction l as [|a l IH]; simpl; [reflexivity|]. destruct (p a) eqn:P, (q a) eqn:Q; simpl; rewrite ?P, ?Q, IH; reflexivity. Qed.
+
+(** an arc without a stoich attribute counts with coefficient 1; an arc without (or with an unknown) role, and an arc whose other
+    end is not a species node, contribute nothing to the vectors of a reaction node *)
+Theorem attribute_defaults ns A r :
+  node_vecs (RG ns (map with_default_stoich A)) r = node_vecs (RG ns A) r /\
+  node_vecs (RG ns (filter (counts_for (RG ns A) r) A)) r = node_vecs (RG ns A) r.
+Proof.
+  split.
+  - unfold node_vecs. change (species_index (RG ns (map with_default_stoich A))) with (species_index (RG ns A)). simpl rg_arcs.
+    unfold incident. rewrite !(filter_map_comm _ with_default_stoich) by reflexivity. rewrite <- map_app.
+    apply fold_acc_ext. intros a st. unfold acc_arc, with_default_stoich, coeff. simpl. reflexivity.
+  - unfold node_vecs. change (species_index (RG ns (filter (counts_for (RG ns A) r) A))) with (species_index (RG ns A)). simpl rg_arcs.
+    unfold incident. rewrite !(filter_filter_comm _ (counts_for (RG ns A) r)). rewrite <- filter_app.
+    apply fold_acc_filter. intros a st H. unfold counts_for in H. unfold acc_arc.
+    destruct (ra_role a) as [ro|]; destruct (index_get _ _); try reflexivity; discriminate.
+Qed.
+
+Example ex_attribute_rules :
+  is_species (RNode 3 (Some 1) (Some 0%Z) None []) = true /\ is_reaction (RNode 3 (Some 1) (Some 0%Z) None []) = false /\
+  is_reaction (RNode 4 (Some 2) (Some 1%Z) None []) = true /\ is_species (RNode 5 None None None []) = false /\
+  node_vecs exn_raw 4 = ([1; 0; 0]%Z, [0; 2; 0]%Z) /\ filter (counts_for exn_raw 4) (rg_arcs exn_raw) = firstn 2 (rg_arcs exn_raw).
+Proof. repeat split; vm_compute; reflexivity. Qed.
+
+Lemma attribute_rules :
+  (forall n, (is_species n = true <-> rn_kind n = Some 0 \/ rn_bflag n = Some 0%Z) /\
+             (is_reaction n = true <-> is_species n = false /\ (rn_kind n = Some 1 \/ rn_bflag n = Some 1%Z)) /\
+             (is_species n = true -> is_reaction n = false)) /\
+  (forall ns A r,
+     node_vecs (RG ns (map (fun a => RArc (ra_u a) (ra_v a) (ra_role a) (Some (match ra_stoich a with Some c => c | None => 1%Z end))) A)) r
+       = node_vecs (RG ns A) r /\
+     node_vecs (RG ns (filter (counts_for (RG ns A) r) A)) r = node_vecs (RG ns A) r).
+Proof. split; [exact classification_spec|exact attribute_defaults]. Qed.
+
+(** the species labels in index order, and the node counts, of the export are those of the label-level model *)
+Lemma nodes_labels ids idr net iso :
+  map eff_label (species_sorted (raw_export ids idr net iso)) = species_order net iso /\
+  length (species_nodes (raw_export ids idr net iso)) = length (species_order net iso) /\
+  length (reaction_nodes (raw_export ids idr net iso)) = length (reaction_order net).
+Proof.
+  rewrite G_species_sorted, G_species_nodes, G_reaction_nodes, map_map, !map_length. split; [apply map_id|]. split.
+  - rewrite species_order_eq. reflexivity.
+  - apply Permutation_length. eapply Permutation_trans; [apply edges_sorted_perm|apply Permutation_sym, reaction_order_perm].
+Qed.
